@@ -26,7 +26,11 @@
 (*          (longitude change / Earth rotation rate)                       *)
 (*   smooth the step of (UT1 - TAI) between the table rows of the two days *)
 (*          (0 inside a day), same unit; dat = the step of TAI - UTC (s)   *)
-(* (h = 1 marks a half-second transition s.0 -> s.5, expected 0.5e8)       *)
+(* (dur = 500 / 1 ms: transitions inside one second, expected dur * 1e5;   *)
+(* they are posed in particular around the instants where terrestrial time *)
+(* UTC + (TAI-UTC) + 32.184 s falls on a whole minute / hour / day, the    *)
+(* boundary cases of utc2TerrestrialTime / seconds2hms; raised = 1 records *)
+(* a conversion that raised - no instant of the span is illegal)           *)
 (* and TLC accepts the record iff  adv = Elapsed*1e8 + smooth  within Tol, *)
 (* the table's leap seconds are exactly the ones listed here, and the      *)
 (* smooth part is bounded by SmoothMax (so a jump can only be a leap       *)
@@ -35,6 +39,7 @@
 EXTENDS Integers, Sequences, FiniteSets, TLC, Json, IOUtils
 
 CONSTANTS FirstYear, LastYear,
+          BaseDat,     \* TAI - UTC (s) on 1 January of FirstYear
           Tol,         \* admissible |adv - expected|, units of 1e-8 s of rotation
           SmoothMax    \* bound on the day-to-day step of UT1 - TAI, same unit
 
@@ -111,21 +116,45 @@ DoyRestartsOnlyAtNewYear == [][Step => ((doy' = 1) <=> ("year" \in Kinds(y, m, d
 LeapOnlyAtMidnight == \A s \in {0, 59, 3599, 43200, 86398, 86399} :
                          Elapsed(y, m, d, s) = 2 <=> "leapsecond" \in Kinds(y, m, d, s)
 
-\* r.h = 0: the transition s -> s+1;  r.h = 1: the first half of second s (s.0 -> s.5), which crosses nothing
+\* TAI - UTC on a day (s): BaseDat at the start of FirstYear plus the leap seconds inserted before that day
+Earlier(a, b) == a[1] < b[1] \/ (a[1] = b[1] /\ (a[2] < b[2] \/ (a[2] = b[2] /\ a[3] < b[3])))
+TaiMinusUtc(yy, mm, dd) == BaseDat + Cardinality({l \in LeapSecondDays : Earlier(l, <<yy, mm, dd>>)})
+\* terrestrial time = UTC + (TAI - UTC) + 32.184 s; in milliseconds.  physics/time/conversions.py
+\* utc2TerrestrialTime / seconds2hms split it again into hour, minute, second: the instants where TT falls
+\* exactly on a whole minute (hour, day) are the boundary cases of that split
+TtOffsetMs(yy, mm, dd) == TaiMinusUtc(yy, mm, dd) * 1000 + 32184
+TtKinds(yy, mm, dd, ms) ==
+  LET t == ms + TtOffsetMs(yy, mm, dd)
+  IN (IF t % 60000 = 0 THEN {"tt-minute"} ELSE {})
+     \cup (IF t % 3600000 = 0 THEN {"tt-hour"} ELSE {}) \cup (IF t % 86400000 = 0 THEN {"tt-day"} ELSE {})
+
+\* a record: the transition of the UTC label from millisecond-of-day r.ms to r.ms + r.dur
+\*   dur = 1000: one second (crosses midnight when it starts in second 86399)
+\*   dur = 500, 1: a fraction of a second that stays inside one second (crosses nothing in UTC)
+\* r.raised = 1: the real conversion raised at one of the two instants - every instant of the span is legal
 RecordOK(r) ==
-  LET el == IF r.h = 1 THEN 0 ELSE Elapsed(y, m, d, r.s)
-      expected == IF r.h = 1 THEN 50000000 ELSE el * 100000000 + r.smooth
-  IN /\ r.y = y /\ r.m = m /\ r.d = d /\ r.s \in 0..86399     \* the driver's datetime calendar is this calendar
-     /\ r.h \in {0, 1}
-     /\ (r.h = 0 => r.dat = el - 1)                           \* the table's leap seconds are the listed ones
-     /\ ((r.s < 86399 \/ r.h = 1) => r.smooth = 0 /\ r.dat = 0) \* one table row per day
+  LET s  == r.ms \div 1000
+      el == IF r.dur = 1000 THEN Elapsed(y, m, d, s) ELSE 0
+      expected == IF r.dur = 1000 THEN el * 100000000 + r.smooth ELSE r.dur * 100000
+  IN /\ r.y = y /\ r.m = m /\ r.d = d /\ r.ms \in 0..86399999  \* the driver's datetime calendar is this calendar
+     /\ r.dur \in {1, 500, 1000}
+     /\ (r.dur < 1000 => (r.ms % 1000) + r.dur < 1000)
+     /\ r.raised = 0                                          \* the conversion is defined at every instant
+     /\ (r.dur = 1000 => r.dat = el - 1)                      \* the table's leap seconds are the listed ones
+     /\ ((s < 86399 \/ r.dur < 1000) => r.smooth = 0 /\ r.dat = 0) \* one table row per day
      /\ Abs(r.smooth) <= SmoothMax
      /\ Abs(r.adv - expected) <= Tol                          \* rotation advances by the elapsed UT1
+\* non-vacuity inside the spec: a day that has records has one that ends exactly on a TT minute boundary
+TtBoundariesPosed ==
+  Len(RecsOf(dayNo)) > 0 =>
+     \E i \in 1..Len(RecsOf(dayNo)) :
+        LET r == RecsOf(dayNo)[i] IN r.dur = 1 /\ "tt-minute" \in TtKinds(y, m, d, r.ms + r.dur)
 ContinuityOK == \A i \in 1..Len(RecsOf(dayNo)) : RecordOK(RecsOf(dayNo)[i])
 
 \* expected values for the driver (day-of-year oracle, classification of midnight)
 EmitDay == PrintT("DAY " \o ToJson([y |-> y, m |-> m, d |-> d, doy |-> doy, n |-> dayNo,
                                     kinds |-> Kinds(y, m, d, 86399),
                                     elapsed |-> Elapsed(y, m, d, 86399),
+                                    dat |-> TaiMinusUtc(y, m, d), ttoff |-> TtOffsetMs(y, m, d),
                                     nrec |-> Len(RecsOf(dayNo))]))
 =============================================================================
